@@ -4,7 +4,7 @@ import MazeVerif.Model.Grid
 
 Python mirrored (line numbers of /repo at the time of writing):
 * `maze_dataset/dataset/maze_dataset.py`
-  - 539-541 `update_self_config`, 543-560 `custom_maze_filter`,
+  - 539-541 `update_self_config`, 543-564 `custom_maze_filter` (repaired: deep copy of the whole result),
   - 580-606 `register_maze_filter` wrapper, 609-824 `MazeDatasetFilters.*`,
   - 248-258 `MazeDataset.__init__` (`list(mazes)` – always a fresh list), 263-264 `__deepcopy__ = load(_serialize_full())`.
 * `maze_dataset/dataset/dataset.py`
@@ -428,19 +428,20 @@ def applyReg (np : Percentile) (h : Heap) (d : Nat) (c : Call) : Except Err (Hea
         | .ok (h1, nd) => finish h1 nd c.record
   | _, _ => .error .other                                        -- AttributeError on the namespace
 
-/-- `custom_maze_filter(method, **kwargs)` (543-560): `copy.deepcopy(self.cfg)` of the config only (muutils'
-    `SerializableDataclass.__deepcopy__` = `load(serialize())`, so `_load_applied_filters` runs here too), the *same* maze
-    objects, a record with `"args": ()` (commit 260593d) and the keyword arguments -/
+/-- `custom_maze_filter(method, **kwargs)` (543-564, after the repair "custom_maze_filter shared maze objects with its
+    input"): `copy.deepcopy(MazeDataset(cfg=self.cfg, mazes=[m for m in self.mazes if method(m, **kwargs)]))`, exactly as the
+    `register_maze_filter` wrapper does — a fresh config cell (`_load_applied_filters` runs, so a record without `args`
+    gives ValueError), FRESH maze objects holding copies of the kept mazes, a fresh dataset object without collected
+    metadata — then a record with `"args": ()` (commit 260593d) and the keyword arguments, and `update_self_config`.
+    (Before the repair only the config was deep-copied and the result referenced the input's maze objects.) -/
 def customFilter (h : Heap) (d : Nat) (fname : String) (p : Maze → Bool) (kwargs : List (String × PyLit)) :
     Except Err (Heap × Nat) :=
   match h.view d with
   | none => .error .other
-  | some (ds, c, ms) =>
-    if allArgs c.applied then
-      let keep := ((ds.mazes.zip ms).filter (fun am => p am.2)).map (fun am => am.1)
-      let h1 : Heap := { h with cfgs := h.cfgs ++ [c], dsets := h.dsets ++ [{ cfg := h.cfgs.length, mazes := keep, gmc := none }] }
-      finish h1 h.dsets.length { name := "__custom__:" ++ fname, args := some [], kwargs := kwargs }
-    else .error .ValueError
+  | some (_, c, ms) =>
+    match copyNew h c (ms.filter p) none with
+    | .error e => .error e
+    | .ok (h1, nd) => finish h1 nd { name := "__custom__:" ++ fname, args := some [], kwargs := kwargs }
 
 inductive Op
   | reg (c : Call)
